@@ -366,6 +366,7 @@ class Check:
             os.makedirs(d, exist_ok=True)
             for name, data in (files or {}).items():
                 mode = 'wb' if isinstance(data, bytes) else 'w'
+                os.makedirs(os.path.dirname(os.path.join(d, name)), exist_ok=True)
                 with open(os.path.join(d, name), mode) as fh:
                     fh.write(data)
             m = {'property': self.pid, 'key': key, 'summary': summary, 'seed': SEED, 'tier': self.tier}
